@@ -50,7 +50,14 @@ exports.register = function (ops, lib) {
     const entry = path.join(dir, c.entry);
     let exp = null, err = null;
     try {
-      if (c.how === 'import') {
+      if (c.how === 'import-many') {
+        exp = {};
+        for (const e of c.entries) {
+          log.push('LOAD ' + e);
+          const ns = await import(pathToFileURL(path.join(dir, e)).href);
+          exp[e] = ns;
+        }
+      } else if (c.how === 'import') {
         const ns = await import(pathToFileURL(entry).href);
         exp = ns;
       } else if (c.how === 'require') {
